@@ -164,6 +164,10 @@ def _shrink_c15(best, attempt, budget):
         if ts[i].get("via_file"):
             ts[i].pop("via_file")
             attempt(variant(tasks=ts))
+        ts = copy.deepcopy(best["trace"]["tasks"])
+        if ts[i].get("ctor_elsewhere"):
+            ts[i].pop("ctor_elsewhere")
+            attempt(variant(tasks=ts))
     # drop second objects of a thread
     for i in range(len(best["trace"]["tasks"])):
         ts = copy.deepcopy(best["trace"]["tasks"])
